@@ -155,7 +155,7 @@ async def kiq_case(asyncs, fail_at):
     return pr
 
 # ---------------------------------------------------------------- (d)
-def loop_case(start_off, horizon, oneshots, crons, failing_source, failing_send, slow_listing=0.0):
+def loop_case(start_off, horizon, oneshots, crons, failing_source, failing_send, slow_listing=0.0, host_offset_h=0.0, check_oneshots=None, stable_ids=False):
     """oneshots: list of offsets (s) from BASE; crons: list of cron expressions"""
     import taskiq.cli.scheduler.run as run_mod
     from taskiq import TaskiqScheduler, ScheduleSource
@@ -169,7 +169,7 @@ def loop_case(start_off, horizon, oneshots, crons, failing_source, failing_send,
         @classmethod
         def now(cls, tz=None):
             t = BASE + _dt.timedelta(seconds=loop.time())
-            return t if tz is not None else t.replace(tzinfo=None)
+            return t.astimezone(tz) if tz is not None else (t + _dt.timedelta(hours=host_offset_h)).replace(tzinfo=None)          # naive = the host's local wall clock
     real_dt = run_mod.datetime; run_mod.datetime = VDateTime
     sent = []
     class B(AsyncBroker):
@@ -186,7 +186,15 @@ def loop_case(start_off, horizon, oneshots, crons, failing_source, failing_send,
     class Slow(LabelScheduleSource):
         async def get_schedules(self):
             await asyncio.sleep(slow_listing); return await super().get_schedules()
-    sources = [Slow(b) if slow_listing else LabelScheduleSource(b)] + ([Bad()] if failing_source else [])
+    class Stable(ScheduleSource):          # a source that lists the same schedule ids at every poll (as a database-backed source does)
+        def __init__(self, inner): self.inner = inner; self.cache = None
+        async def startup(self): await self.inner.startup()
+        async def get_schedules(self):
+            if self.cache is None: self.cache = await self.inner.get_schedules()
+            return list(self.cache)
+        def post_send(self, task):
+            if task.time is not None: self.cache = [x for x in self.cache if x is not task and x.schedule_id != task.schedule_id]
+    sources = [Slow(b) if slow_listing else (Stable(LabelScheduleSource(b)) if stable_ids else LabelScheduleSource(b))] + ([Bad()] if failing_source else [])
     sched = TaskiqScheduler(b, sources)
     async def main():
         await asyncio.sleep(start_off)
@@ -199,12 +207,15 @@ def loop_case(start_off, horizon, oneshots, crons, failing_source, failing_send,
     finally: loop.close(); run_mod.datetime = real_dt
     pr = []
     if any(s[0] == 'LOOP DIED' for s in sent): pr.append(f"C15: the scheduler loop stopped: {sent[-1]}")
-    for i, off in enumerate(oneshots if not slow_listing else []):          # with a slow source only 'never twice in one minute' is checked: the statement bounds send latencies, not listing latencies
+    if check_oneshots is None: check_oneshots = not slow_listing          # with a very slow source only 'never twice in one minute' is checked (a listing that ends after T sends late by design)
+    for i, off in enumerate(oneshots if check_oneshots else []):
         k = [s for s in sent if s[1] == f'once{i}']
         due = max(off, start_off)
         if off <= horizon - 62:
-            if len(k) != 1: pr.append(f"C15: one-shot schedule with T = start+{off}s (loop started at +{start_off}s) was sent {len(k)} times at {[x[0] for x in k]}")
-            elif not (due - 1e-6 <= k[0][0] <= due + 1.0 + 1e-6) and off > start_off: pr.append(f"C15: one-shot schedule T=+{off}s sent at +{k[0][0]}s")
+            ctx = (f", listing takes {slow_listing}s" if slow_listing else "") + (f", host UTC offset {host_offset_h:+}h" if host_offset_h else "")
+            if len(k) != 1: pr.append(f"C15: one-shot schedule with T = start+{off}s (loop started at +{start_off}s{ctx}) was sent {len(k)} times at {[x[0] for x in k]}")
+            elif not (due - 1e-6 <= k[0][0] <= due + 1.0 + 1e-6) and off > start_off:
+                for pid in ('C15', 'C14'): pr.append(f"{pid}: one-shot schedule T=+{off}s sent at +{k[0][0]}s by the scheduler loop (not before T and within 1 s after it is required{ctx})")
     for i, c in enumerate(crons):
         k = sorted(s[0] for s in sent if s[1] == f'cron{i}')
         mins = sorted({int(x // 60) for x in k})
@@ -212,6 +223,7 @@ def loop_case(start_off, horizon, oneshots, crons, failing_source, failing_send,
         first = int(start_off // 60); last = int((horizon - 1) // 60)
         import pycron
         want = [mi for mi in range(first, last + 1) if pycron.is_now(c, BASE + _dt.timedelta(minutes=mi))]
+        if host_offset_h and mins != want: pr.append(f"C13: cron schedule {c!r} sent by the scheduler loop in minutes {mins} of {BASE.isoformat()} on a host with UTC offset {host_offset_h:+}h, expected {want} (UTC is the reference when no offset is given)")
         if failing_send and i == 0 and want: want = want[1:] if mins and mins[0] != want[0] else want
         if mins != want and not slow_listing: pr.append(f"C15: cron schedule {c!r} sent in minutes {mins}, expected {want}")
     return pr
@@ -241,6 +253,15 @@ def run(sc):
         for start_off, slow in ((59.7, 0.6), (30.0, 0.6), (59.9, 45.0)):          # a source whose listing takes time, started so that the listing straddles a minute boundary
             pr = loop_case(start_off, 330.0, [200.0], ['* * * * *'], False, False, slow_listing=slow); n += 1
             if pr: fails.append({'key': f"loop/start+{start_off}/slow-listing={slow}", 'failed_clauses': pr})
+        for off_h in (5.5, -8.0):          # a host whose local time is not UTC: naive datetime.now() differs from UTC there
+            pr = loop_case(0.4, 330.0, [90.0, 200.0], ['* 12 * * *', '* 17 * * *', '* 4 * * *'], False, False, host_offset_h=off_h); n += 1
+            if pr: fails.append({'key': f"loop/host-offset={off_h}", 'failed_clauses': pr})
+        for slow in (1.5, 3.0):          # listing latency above 1 s: the delay must be computed AFTER the listing, otherwise the send is late by the latency
+            pr = loop_case(30.0, 330.0, [200.0, 250.5], ['* * * * *'], False, False, slow_listing=slow, check_oneshots=True); n += 1
+            if pr: fails.append({'key': f"loop/start+30.0/slow-listing={slow}/one-shots", 'failed_clauses': pr})
+        for start_off in (0.4, 59.7):          # a send that fails once must not affect later occurrences, also for sources that list the same schedule ids at every poll
+            pr = loop_case(start_off, 330.0, [90.0], ['* * * * *', '*/2 * * * *'], False, True, stable_ids=True); n += 1
+            if pr: fails.append({'key': f"loop/start+{start_off}/stable-ids/failing-send", 'failed_clauses': pr})
     return {'reproduced': bool(fails), 'runs': n, 'n_failures': len(fails), 'failures': fails[:400]}
 
 if __name__ == '__main__':
